@@ -2,9 +2,12 @@ package sqlite
 
 import (
 	"context"
+	"database/sql"
+	"errors"
 	"fmt"
 	"strings"
 
+	"ariga.io/atlas/sql/migrate"
 	"ariga.io/atlas/sql/schema"
 )
 
@@ -18,7 +21,25 @@ type verifColSpec struct {
 	oldName string
 }
 
-func verifC05(ncols int) {
+func verifC05(ncols int) { verifC05p(ncols, DefaultPlan) }
+
+// verifC05DB: a connected planner's database. Whatever the planner asks while planning, the
+// answer is arbitrary (no row or one row): the plan may not touch other tables because of it.
+type verifC05DB struct{ rows int }
+
+func (d verifC05DB) QueryContext(context.Context, string, ...any) (*sql.Rows, error) {
+	var data [][]any
+	for i := 0; i < d.rows; i++ {
+		data = append(data, []any{int64(1)})
+	}
+	return verifMkRows([]string{"x"}, data)
+}
+
+func (verifC05DB) ExecContext(context.Context, string, ...any) (sql.Result, error) {
+	return nil, errors.New("verif: planning executes nothing")
+}
+
+func verifC05p(ncols int, planner migrate.PlanApplier) {
 	sch := schema.New("main")
 	t := schema.NewTable("t").SetSchema(sch)
 	var specs []verifColSpec
@@ -67,7 +88,7 @@ func verifC05(ncols int) {
 	}
 	modify := &schema.ModifyTable{T: t, Changes: changes}
 	inPlace := alterable(modify)
-	plan, err := DefaultPlan.PlanChanges(context.Background(), "p", []schema.Change{modify})
+	plan, err := planner.PlanChanges(context.Background(), "p", []schema.Change{modify})
 	if inPlace {
 		verifReach("alter")
 		verifAssert(err == nil, "changes judged alterable are planned in place without error")
@@ -80,6 +101,11 @@ func verifC05(ncols int) {
 	verifAssert(err == nil, "rebuild is planned without error")
 	if err != nil {
 		return
+	}
+	for _, c := range plan.Changes {
+		if strings.HasPrefix(c.Cmd, "DROP TABLE") {
+			verifAssert(c.Cmd == "DROP TABLE `t`", "the only table a rebuild drops is the old table itself")
+		}
 	}
 	// locate the statements of the 12-step procedure
 	iCreate, iInsert, iDrop, iRename := -1, -1, -1, -1
@@ -169,6 +195,9 @@ func verifSplitTop(s string) []string {
 
 func VerifHarness_C05_quick()    { verifC05(2) }
 func VerifHarness_C05_thorough() { verifC05(3) }
+func VerifHarness_C05_conn() {
+	verifC05p(2, &planApply{conn: &conn{ExecQuerier: verifC05DB{rows: verifChoice("rows", 2)}}})
+}
 
 // verifC05Multi: several tables change in one plan, in any order: a table that
 // must be rebuilt (or is dropped) anywhere in the plan requires the whole plan
